@@ -150,6 +150,25 @@ CLAIMED.update({
              "result compared; random histories over 6 parameters validated by the trace spec.",
         ref="DESIGN.md §3 C16", tech="TLA+ IprSubst: exhaustive TLC behaviours replayed + trace validation",
         note="Trusted: TLC, harness/subst.cxx; expressions identified by address."),
+    "C17": dict(
+        text="IprPrinter.tla states the relations: the text of a program under given options is a function of the program "
+             "(SameText), printing leaves the graph untouched, and the text with print_locations is the text without, woven "
+             "with the specification's location prefix F<file>:<line>[:<column>]<space> at every located statement (Weave). TLC "
+             "enumerates every statement tree of nesting depth 2 over the statement constructs; each is built in two Lexicons "
+             "(one with unrelated allocations between all steps), printed three times and with locations on/off; IprPrinterTrace "
+             "judges every event.",
+        ref="DESIGN.md §3 C17", tech="TLA+ IprPrinter: TLC-enumerated programs built twice and printed; relational trace validation",
+        note="Trusted: TLC, spec/IprPrinter*.tla, harness/printer.cxx (its search for where the prefixes sit is only a witness: "
+             "TLC re-computes the woven text). Programs are statement trees; no byte-exact reference rendering is claimed."),
+    "C18": dict(
+        text="IprPrinter.tla: a print either completes or is refused with std::logic_error; the control state [indent, base, "
+             "flags, fill, width, precision] is as found (indentation only for completed prints), control bytes appear only if "
+             "spelled, numbers are decimal numerals (Dec). Checked on every statement tree of depth 2 from TLC, on one instance of "
+             "every implementation class through all four entry points (each print in a forked child with a time limit: a crash "
+             "or time-out is a terminal event), on all 256 single-byte literals alone and next to \\1/\\2, and on all five "
+             "delimiters, each followed by a position and a nesting level on the same stream.",
+        ref="DESIGN.md §3 C18", tech="TLA+ IprPrinter: control-state/outcome/number rules validated by TLC on a complete print sweep + TLC-enumerated statement trees",
+        note="Trusted: TLC, spec/IprPrinter*.tla, harness/printer.cxx; default 8 MiB stack, 20 s per print."),
 })
 
 ALL = ["C%02d" % i for i in range(1, 21)]
